@@ -9,6 +9,7 @@ the frame (`y < m.h`, `x < m.w`) because the totalised `Mask.get` aliases rows b
 -/
 import Model.MaskSets
 import Proofs.MaskSets
+import Proofs.MaskSetsGeom
 
 open Model
 
@@ -200,6 +201,24 @@ theorem grid_views [Add α] [Sub α] [Mul α] [Div α] [Neg α] [NatCast α] [Of
   · exact gridAt_eq m g _ (fun k hk => (mem_edgeSlim.mp hk).1)
   · exact gridAt_eq m g _ (fun k hk => (mem_edgeSlim.mp (mem_borderSlim.mp hk).1).1)
   · rw [gridSlimViaMask_eq, nativeForSlim_eq]
+
+/-- (d3, closed form) over any field and non-zero pixel scales that coordinate is the pixel centre
+    `(o_y + ((H−1)/2 − y)·s_y, o_x + (x − (W−1)/2)·s_x)` of C02.a, so e.g. the edge grid is the list of
+    pixel centres of the edge pixels in slim order. -/
+theorem grid_views_closed_form {F : Type} [Field F] (m : Mask) (g : Impl.Geom F)
+    (hsy : g.sy ≠ 0) (hsx : g.sx ≠ 0) :
+    Impl.gridAt m g (Impl.edgeSlim m)
+      = (Impl.edgeNative m).map (fun p =>
+          (g.oy + (((m.h - 1 : Nat) : F) / 2 - (p.1 : F)) * g.sy,
+           g.ox + ((p.2 : F) - ((m.w - 1 : Nat) : F) / 2) * g.sx))
+    ∧ Impl.gridAt m g (Impl.borderSlim m)
+      = (Impl.borderNative m).map (fun p =>
+          (g.oy + (((m.h - 1 : Nat) : F) / 2 - (p.1 : F)) * g.sy,
+           g.ox + ((p.2 : F) - ((m.w - 1 : Nat) : F) / 2) * g.sx)) := by
+  obtain ⟨h1, h2, _⟩ := grid_views m g
+  rw [h1, h2]
+  constructor <;>
+    exact List.map_congr_left fun p _ => pixelCentre_closed_form m.h m.w g hsy hsx p
 
 /-! ## defect D6 (repaired): the pre-repair loops violate (b) and (d) -/
 
